@@ -431,11 +431,11 @@ func (b *BaseStore) holdsOnlyEntriesStoredUnderTheirAddress(ctx context.Context,
 // their own, keeping at most amount entries when amount is positive.
 func (b *BaseStore) joinEntriesOneByOne(ctx context.Context, oplog ipfslog.Log, l ipfslog.Log, amount int) {
 	for _, e := range l.GetEntries().Slice() {
-		if e.GetLogID() != b.id || !b.isStoredUnderItsAddress(ctx, e) {
+		if _, ok := oplog.Get(e.GetHash()); ok {
 			continue
 		}
 
-		if _, ok := oplog.Get(e.GetHash()); ok {
+		if e.GetLogID() != b.id || !b.isStoredUnderItsAddress(ctx, e) {
 			continue
 		}
 
@@ -722,6 +722,14 @@ func (b *BaseStore) Load(ctx context.Context, amount int) error {
 				b.joinEntriesOneByOne(ctx, oplog, l, amount)
 			} else {
 				span.AddEvent("store-heads-joined")
+
+				// Join walks the fetched log from its heads and stops at the
+				// entries the store already holds: what lies below them (left
+				// out by an earlier load with a limit, or by a load that was
+				// given up part-way) is merged here
+				if size == -1 {
+					b.joinEntriesOneByOne(ctx, oplog, l, amount)
+				}
 			}
 		}(h)
 	}
